@@ -101,6 +101,40 @@ def _zip_chain(ret: T):
     return None
 
 
+def _iff_empty(live: T, lst: T) -> bool:
+    """the condition holds exactly when the list is empty, whatever the
+    spelling of the test (`not lst`, `len(lst) == 0`, `len(lst) < 1`,
+    `lst == []` ...): evaluated for an empty and for a non-empty list"""
+    ln = tm.call(tm.glob("builtins.len"), (lst,), ())
+
+    def world(n):
+        def env(a):
+            if a.op in ("and", "or", "not"):
+                return None
+            if a is lst:
+                return n > 0
+            if a.op == "cmp":
+                def val(t):
+                    if t is ln:
+                        return n
+                    if tm.is_const(t) and type(tm.const_val(t)) is int:
+                        return tm.const_val(t)
+                    return None
+                if a.args[0] in ("Eq", "NotEq") and a.args[1] is lst and \
+                        a.args[2].op == "list" and not a.args[2].args:
+                    return (n == 0) == (a.args[0] == "Eq")
+                x, y = val(a.args[1]), val(a.args[2])
+                if x is not None and y is not None:
+                    return {"Lt": x < y, "LtE": x <= y, "Gt": x > y,
+                            "GtE": x >= y, "Eq": x == y,
+                            "NotEq": x != y}.get(a.args[0])
+            return None
+        return env
+    return tm.fold(live, world(0)) is True and \
+        tm.fold(live, world(1)) is False and \
+        tm.fold(live, world(7)) is False
+
+
 def check(ctx):
     prog = ctx.prog
     ctx.analysed_fn(FI, FP, FA, IDP)
@@ -1005,6 +1039,8 @@ def _dispatch(ctx, prog):
                    (c[0].args[1][0] is res or c[0].args[1][0] is r.ret)
                    for c in cm):
                 continue
+            if _iff_empty(e.live, res) or _iff_empty(e.live, r.ret):
+                continue
             di = tm.call(tm.glob("builtins.int"), (DELTA,), ())
             sampled = _frames_no_pair(e.live, n_, di, DELTA) \
                 if member == "frames" else None
@@ -1044,9 +1080,10 @@ def _dispatch(ctx, prog):
         # empty list raises before the return
         empt = [e for e in r.of_kind("raise")
                 if "FilterException" in (e.data.get("exc_name") or "") and
-                any(c[1] == "Eq" and tm.is_const(c[2], 0) and
-                    is_call_to(c[0], "builtins.len") and
-                    c[0].args[1][0] is res for c in comparisons(e.live))]
+                (any(c[1] == "Eq" and tm.is_const(c[2], 0) and
+                     is_call_to(c[0], "builtins.len") and
+                     c[0].args[1][0] is res for c in comparisons(e.live))
+                 or _iff_empty(e.live, res))]
         rets = r.of_kind("return")
         # the list that is tested / returned: the filter's, or [] where no
         # pair can exist anyway (a shortcut for a too large frame delta)
